@@ -56,7 +56,7 @@ Ensure(cap, newlen) == Grow(cap, newlen + 1)
 \* ---- named payloads and formats -------------------------------------------------------------
 X(n) == Rep("x", n)
 Pay == [ P0 |-> "", Pa |-> "a", Pab |-> "ab", Pba |-> "ba", Pabc |-> "abc", Ppct |-> "%d",
-         PX1021 |-> X(1021), PX1022 |-> X(1022), PX2046 |-> X(2046), PX1023 |-> X(1023), PX1024 |-> X(1024), PX1025 |-> X(1025),
+         PX253 |-> X(253), PX254 |-> X(254), PX255 |-> X(255), PX509 |-> X(509), PX510 |-> X(510), PX511 |-> X(511), PX1021 |-> X(1021), PX1022 |-> X(1022), PX2046 |-> X(2046), PX1023 |-> X(1023), PX1024 |-> X(1024), PX1025 |-> X(1025),
          I5 |-> "abaab", I1022 |-> "ab" \o X(1020), I1023 |-> "ab" \o X(1021), I1024 |-> "ab" \o X(1022),
          I2047 |-> "ab" \o X(2045), I2048 |-> "ab" \o X(2046),
          S3 |-> "xxx", S4 |-> "xxxx", S5 |-> "xxxxx", S7 |-> "abaabab", S8 |-> "abaababa" ]
